@@ -2,78 +2,97 @@
 (***************************************************************************)
 (* C18: losing a server node.                                              *)
 (*   server/server.go      Shutdown: not ready -> close the upstream       *)
-(*                         server (all upstream sessions) -> close the     *)
-(*                         proxy -> leave the cluster (notify peers) ->    *)
-(*                         close gossip -> admin                           *)
+(*                         server (cancel the handlers' context, wait for  *)
+(*                         the upstreams to be removed) -> close the proxy *)
+(*                         -> leave the cluster (notify peers) -> close    *)
+(*                         gossip -> admin                                 *)
+(*   server/upstream/server.go  every handler removes its upstream in its  *)
+(*                         own time after its session ended (Dereg)        *)
 (*   pkg/gossip/gossip.go  Leave: push the own state (with the left        *)
 (*                         marker) to up to MaxNotify live peers           *)
 (*   client/listener.go    the accept loop reconnects when the session     *)
 (*                         ends (through a load balancer in front of the   *)
 (*                         upstream ports)                                 *)
-(* Gossip is abstracted to "o learns n's published state" (directly, or the*)
-(* final left state from a peer); the failure detector to "o marks a dead  *)
-(* node unreachable".  One node is lost, gracefully or by a kill at any    *)
-(* phase (including in the middle of its shutdown).                        *)
+(* What a node publishes about itself is a history pub[n] (one element per *)
+(* change of its registered upstreams, the last one carrying the left      *)
+(* marker); what o knows about n is a position in that history (gossip     *)
+(* delivers version prefixes: Gossip.tla, C02), moved forward by a round   *)
+(* with n itself, by a round with a peer that knows more, or by n's leave  *)
+(* notification; plus o's own failure detector flag.  One node is lost,    *)
+(* gracefully or by a kill at any phase (also in the middle of its         *)
+(* shutdown).                                                              *)
 (***************************************************************************)
-EXTENDS Integers, FiniteSets
+EXTENDS Integers, FiniteSets, Sequences
 
 CONSTANTS Node, Lsn, MaxNotify,
-          AwaitDereg   \* Shutdown() waits for the upstream handlers to deregister before it goes on
+          AwaitDereg,  \* Shutdown() waits for the upstream handlers to deregister before it goes on
                        \* (FALSE: the behaviour of the pinned tree, finding D6 - the node could leave the
                        \* cluster while still advertising upstreams)
+          Flaky        \* the failure detector may suspect a live node for a while (trace validation under load)
 
 VARIABLES
   phase,   \* phase[n] : "up" | "notready" | "upclosed" | "proxyclosed" | "left" | "down" | "killed"
   conn,    \* conn[l]  : the node the listener is connected to, or "none"
-  reg,     \* reg[n]   : listeners registered on n (what n publishes about itself)
-  view,    \* view[o][n] : [eps, st] what o believes about n
+  reg,     \* reg[n]   : listeners registered on n
+  pub,     \* pub[n]   : what n published about itself, in order: [eps, left]
+  view,    \* view[o][n] : [ver, unreach] - how far o has followed pub[n], and o's failure detector flag for n
   victim   \* the node that is lost ("" before)
 
-vars == <<phase, conn, reg, view, victim>>
+vars == <<phase, conn, reg, pub, view, victim>>
 
 Gossiping(n) == phase[n] \in {"up", "notready", "upclosed", "proxyclosed", "left"}
 UpstreamOpen(n) == phase[n] \in {"up", "notready"}
 ProxyOpen(n) == phase[n] \in {"up", "notready", "upclosed"}
 Dead(n) == phase[n] \in {"down", "killed"}
 
-Init ==
-  /\ phase = [n \in Node |-> "up"]
-  /\ conn \in [Lsn -> Node]
-  /\ reg = [n \in Node |-> {l \in Lsn : conn[l] = n}]
-  /\ view = [o \in Node |-> [n \in Node |-> [eps |-> reg[n], st |-> "active"]]]
-  /\ victim = ""
+Latest(n) == Len(pub[n])
+Known(o, n) == pub[n][view[o][n].ver]
+EpsOf(o, n) == Known(o, n).eps
+StOf(o, n) == IF Known(o, n).left THEN "left" ELSE IF view[o][n].unreach THEN "unreachable" ELSE "active"
 
-Lose(n) == victim = "" /\ victim' = n /\ UNCHANGED <<phase, conn, reg, view>>
+InitFor(c) ==
+  /\ phase = [n \in Node |-> "up"]
+  /\ conn = c
+  /\ reg = [n \in Node |-> {l \in Lsn : c[l] = n}]
+  /\ pub = [n \in Node |-> <<[eps |-> {l \in Lsn : c[l] = n}, left |-> FALSE]>>]
+  /\ view = [o \in Node |-> [n \in Node |-> [ver |-> 1, unreach |-> FALSE]]]
+  /\ victim = ""
+Init == \E c \in [Lsn -> Node] : InitFor(c)
+
+Publish(n, r, left) == pub' = [pub EXCEPT ![n] = Append(@, [eps |-> r, left |-> left])]
+
+Lose(n) == victim = "" /\ victim' = n /\ UNCHANGED <<phase, conn, reg, pub, view>>
 
 \* one step of Shutdown()
 StopStep(n) ==
   /\ victim = n
   /\ \/ /\ phase[n] = "up" /\ phase' = [phase EXCEPT ![n] = "notready"]
-        /\ UNCHANGED <<conn, reg, view>>
+        /\ UNCHANGED <<conn, reg, pub, view>>
      \/ /\ phase[n] = "notready" /\ phase' = [phase EXCEPT ![n] = "upclosed"]
         \* the upstream handlers' context is cancelled: every session is closed; each handler
         \* deregisters its upstream in its own time (Dereg)
         /\ conn' = [l \in Lsn |-> IF conn[l] = n THEN "none" ELSE conn[l]]
-        /\ UNCHANGED <<reg, view>>
+        /\ UNCHANGED <<reg, pub, view>>
      \/ /\ phase[n] = "upclosed" /\ phase' = [phase EXCEPT ![n] = "proxyclosed"]
         /\ (AwaitDereg => reg[n] = {})
-        /\ UNCHANGED <<conn, reg, view>>
+        /\ UNCHANGED <<conn, reg, pub, view>>
      \/ /\ phase[n] = "proxyclosed" /\ phase' = [phase EXCEPT ![n] = "left"]
         \* Leave(): the own state, now with the left marker, is pushed to up to MaxNotify gossiping peers
+        /\ Publish(n, reg[n], TRUE)
         /\ \E S \in SUBSET {o \in Node \ {n} : Gossiping(o)} :
              /\ Cardinality(S) = (IF Cardinality({o \in Node \ {n} : Gossiping(o)}) < MaxNotify
                                   THEN Cardinality({o \in Node \ {n} : Gossiping(o)}) ELSE MaxNotify)
-             /\ view' = [o \in Node |-> IF o \in S THEN [view[o] EXCEPT ![n] = [eps |-> reg[n], st |-> "left"]]
-                                        ELSE view[o]]
+             /\ view' = [o \in Node |-> IF o \in S THEN [view[o] EXCEPT ![n].ver = Latest(n) + 1] ELSE view[o]]
         /\ UNCHANGED <<conn, reg>>
      \/ /\ phase[n] = "left" /\ phase' = [phase EXCEPT ![n] = "down"]
-        /\ UNCHANGED <<conn, reg, view>>
+        /\ UNCHANGED <<conn, reg, pub, view>>
   /\ UNCHANGED victim
 
 \* a handler whose session ended runs its deferred RemoveConn
 Dereg(n, l) ==
   /\ l \in reg[n] /\ conn[l] # n /\ ~Dead(n)
   /\ reg' = [reg EXCEPT ![n] = @ \ {l}]
+  /\ Publish(n, reg[n] \ {l}, pub[n][Latest(n)].left)
   /\ UNCHANGED <<phase, conn, view, victim>>
 
 \* the process dies (also in the middle of a shutdown)
@@ -81,43 +100,62 @@ Kill(n) ==
   /\ victim = n /\ ~Dead(n)
   /\ phase' = [phase EXCEPT ![n] = "killed"]
   /\ conn' = [l \in Lsn |-> IF conn[l] = n THEN "none" ELSE conn[l]]
-  /\ UNCHANGED <<reg, view, victim>>
+  /\ UNCHANGED <<reg, pub, view, victim>>
 
-\* o hears n's published state (push-pull round with n itself)
+\* a push-pull round of o with n itself: o is up to date about n (and n about o)
 Gossip(o, n) ==
   /\ o # n /\ Gossiping(o) /\ Gossiping(n)
-  /\ view' = [view EXCEPT ![o][n] = [eps |-> reg[n],
-                                     st |-> IF phase[n] = "left" THEN "left" ELSE "active"]]
-  /\ UNCHANGED <<phase, conn, reg, victim>>
+  /\ view[o][n].ver < Latest(n)
+  /\ view' = [view EXCEPT ![o][n].ver = Latest(n)]
+  /\ UNCHANGED <<phase, conn, reg, pub, victim>>
 
-\* o hears from m that n left (the left marker travels with n's last state)
+\* a round of o with m brings o what m knows about n
 Relay(o, m, n) ==
   /\ o # n /\ m # n /\ o # m /\ Gossiping(o) /\ Gossiping(m)
-  /\ view[m][n].st = "left" /\ view[o][n].st # "left"
-  /\ view' = [view EXCEPT ![o][n] = view[m][n]]
-  /\ UNCHANGED <<phase, conn, reg, victim>>
+  /\ view[m][n].ver > view[o][n].ver
+  /\ view' = [view EXCEPT ![o][n].ver = view[m][n].ver]
+  /\ UNCHANGED <<phase, conn, reg, pub, victim>>
 
 \* the failure detector gives up on a node that no longer answers
 Detect(o, n) ==
-  /\ o # n /\ Gossiping(o) /\ Dead(n) /\ view[o][n].st = "active"
-  /\ view' = [view EXCEPT ![o][n].st = "unreachable"]
-  /\ UNCHANGED <<phase, conn, reg, victim>>
+  /\ o # n /\ Gossiping(o) /\ Dead(n) /\ ~view[o][n].unreach
+  /\ view' = [view EXCEPT ![o][n].unreach = TRUE]
+  /\ UNCHANGED <<phase, conn, reg, pub, victim>>
+
+\* ... and may wrongly suspect a live node for a while
+FalseSuspect(o, n) ==
+  /\ Flaky /\ o # n /\ Gossiping(o) /\ ~Dead(n) /\ ~view[o][n].unreach
+  /\ view' = [view EXCEPT ![o][n].unreach = TRUE]
+  /\ UNCHANGED <<phase, conn, reg, pub, victim>>
+Unsuspect(o, n) ==
+  /\ o # n /\ Gossiping(o) /\ Gossiping(n) /\ view[o][n].unreach
+  /\ view' = [view EXCEPT ![o][n].unreach = FALSE]
+  /\ UNCHANGED <<phase, conn, reg, pub, victim>>
 
 \* the listener's accept loop reconnects through the load balancer
 Reconnect(l, n) ==
   /\ conn[l] = "none" /\ UpstreamOpen(n)
   /\ conn' = [conn EXCEPT ![l] = n]
   /\ reg' = [reg EXCEPT ![n] = @ \cup {l}]
+  /\ (IF l \in reg[n] THEN UNCHANGED pub ELSE Publish(n, reg[n] \cup {l}, FALSE))
   /\ UNCHANGED <<phase, view, victim>>
 
-Next ==
-  \/ \E n \in Node : Lose(n) \/ StopStep(n) \/ Kill(n)
+\* everything the scenario driver does not do itself
+BackgroundCore ==
+  \/ \E n \in Node : StopStep(n)
   \/ \E o, n \in Node : Gossip(o, n) \/ Detect(o, n)
   \/ \E o, m, n \in Node : Relay(o, m, n)
   \/ \E l \in Lsn, n \in Node : Reconnect(l, n) \/ Dereg(n, l)
+Background ==
+  \/ BackgroundCore
+  \/ \E o, n \in Node : FalseSuspect(o, n) \/ Unsuspect(o, n)
+
+Next ==
+  \/ \E n \in Node : Lose(n) \/ Kill(n)
+  \/ Background
 
 Fairness ==
-  /\ \A o, n \in Node : WF_vars(Gossip(o, n)) /\ WF_vars(Detect(o, n))
+  /\ \A o, n \in Node : WF_vars(Gossip(o, n)) /\ WF_vars(Detect(o, n)) /\ WF_vars(Unsuspect(o, n))
   /\ \A o, m, n \in Node : WF_vars(Relay(o, m, n))
   /\ \A l \in Lsn : WF_vars(\E n \in Node : Reconnect(l, n))
   /\ \A n \in Node : WF_vars(StopStep(n))
@@ -127,20 +165,22 @@ Spec == Init /\ [][Next]_vars /\ Fairness
 
 -----------------------------------------------------------------------------
 \* where node o would send a request for listener l's endpoint
-Candidates(o, l) == {m \in Node \ {o} : view[o][m].st = "active" /\ l \in view[o][m].eps}
+Candidates(o, l) == {m \in Node \ {o} : StOf(o, m) = "active" /\ l \in EpsOf(o, m)}
 ServesFrom(o, l) ==
   \/ l \in reg[o]
   \/ /\ Candidates(o, l) # {}
      /\ \A m \in Candidates(o, l) : ProxyOpen(m) /\ l \in reg[m]
 
 \* safety
+VersionsInRange == \A o, n \in Node : view[o][n].ver \in 1..Latest(n)
 StoppedNodeAdvertisesNothing == \A n \in Node : phase[n] \in {"proxyclosed", "left", "down"} => reg[n] = {}
-LeftViewsAreEmpty == \A o, n \in Node : (o # n /\ view[o][n].st = "left") => view[o][n].eps = {}
-NeverRouteToLeft == \A o \in Node, l \in Lsn : \A m \in Candidates(o, l) : view[o][m].st = "active"
+LeftViewsAreEmpty == \A o, n \in Node : (o # n /\ StOf(o, n) = "left") => EpsOf(o, n) = {}
+LeftOnlyAfterLeave == \A o, n \in Node : StOf(o, n) = "left" => phase[n] \in {"left", "down", "killed"}
+NeverRouteToLeft == \A o \in Node, l \in Lsn : \A m \in Candidates(o, l) : StOf(o, m) = "active"
 \* the nodes it notified stop routing to it at once (everyone, when there are at most MaxNotify peers)
 NotifiedStopRoutingAtOnce ==
   \A n \in Node : (phase[n] \in {"left", "down"} /\ Cardinality(Node) - 1 <= MaxNotify) =>
-     \A o \in Node \ {n} : Gossiping(o) => view[o][n].st = "left"
+     \A o \in Node \ {n} : Gossiping(o) => StOf(o, n) = "left"
 
 \* liveness: after the loss, listeners are connected to survivors and every survivor serves them
 Recovered ==
